@@ -307,6 +307,8 @@ const (
 	kReopen
 	kReopenWarm
 	kAppBoth
+	// per pair operation added later (the codes of the older ones stay stable)
+	kSnapCompact
 	kNumKinds
 )
 
@@ -317,11 +319,12 @@ var c09kindNames = [...]string{
 	kRestoreAhead: "Update.Snapshot(last+2)", kRemoveTo: "RemoveEntriesTo(snapshot)",
 	kRemoveToPrev: "RemoveEntriesTo(snapshot-1)", kRemoveNode: "RemoveNodeData", kImport: "ImportSnapshot",
 	kReopen: "close+reopen", kReopenWarm: "close+reopen+replayReads", kAppBoth: "append1(both pairs, one SaveRaftState)",
+	kSnapCompact: "SaveSnapshots(commit)+RemoveEntriesTo(snapshot)",
 }
 
 func c09code(k c09kind, rep int) uint8 { return uint8(k)<<1 | uint8(rep) }
 func c09decode(c uint8) (c09kind, int) { return c09kind(c >> 1), int(c & 1) }
-func c09global(k c09kind) bool         { return k >= kReopen }
+func c09global(k c09kind) bool         { return k == kReopen || k == kReopenWarm || k == kAppBoth }
 
 func c09touchesB(c uint8) bool {
 	k, rep := c09decode(c)
@@ -374,6 +377,9 @@ func (m *c09model) enabledKind(k c09kind, rep int, thorough bool) bool {
 	if !thorough && rep == 1 && !c09global(k) && !c09lightB[k] {
 		return false
 	}
+	if c09off[k] {
+		return false
+	}
 	if c09global(k) {
 		switch k {
 		case kReopen:
@@ -420,12 +426,18 @@ func (m *c09model) enabledKind(k c09kind, rep int, thorough bool) bool {
 		return r.hasData
 	case kImport:
 		return true
+	case kSnapCompact:
+		// what a NodeHost does after taking a snapshot below the end of its log:
+		// save the snapshot record, then compact the log up to it; entries above
+		// the snapshot stay live
+		c := r.commit()
+		return c > r.snap.index && c > r.floor && c < last
 	}
 	return false
 }
 
 var c09order = []c09kind{kApp1, kApp3, kState, kReopen, kOwLast, kOwLast2, kOwFirst, kSnapCommit, kSnapLast,
-	kRemoveTo, kRemoveNode, kRestoreLast, kRestoreAhead, kImport, kAppBoth, kRestorePrev, kRemoveToPrev, kReopenWarm}
+	kRemoveTo, kSnapCompact, kRemoveNode, kRestoreLast, kRestoreAhead, kImport, kAppBoth, kRestorePrev, kRemoveToPrev, kReopenWarm}
 
 // enabled lists the enabled operations, simplest first.
 func (m *c09model) enabled(thorough bool) []uint8 {
@@ -605,7 +617,7 @@ func (m *c09model) apply(code uint8) c09action {
 		r.state = pb.State{Term: r.cur, Vote: r.vote, Commit: last}
 		ud.State = r.state
 		a.updates = []pb.Update{ud}
-	case kSnapCommit, kSnapLast:
+	case kSnapCommit, kSnapLast, kSnapCompact:
 		idx := r.commit()
 		if k == kSnapLast {
 			idx = last
@@ -614,6 +626,12 @@ func (m *c09model) apply(code uint8) c09action {
 		r.snap = c09snap{index: idx, term: r.ent(idx).term, tag: m.seq}
 		ud.Snapshot = c09mkSnapshot(rep, r.snap)
 		a.updates = []pb.Update{ud}
+		if k == kSnapCompact {
+			// idx < last (enabledKind): the entries above idx stay
+			r.ents = append([]c09ent(nil), r.ents[idx-r.floor:]...)
+			r.floor = idx
+			a.index = idx
+		}
 	case kRestoreLast, kRestorePrev, kRestoreAhead:
 		m.touch(rep, &a)
 		idx := last
@@ -686,6 +704,12 @@ func (s *c09sut) exec(a c09action) (err error) {
 	switch a.kind {
 	case kApp1, kApp3, kOwLast, kOwLast2, kOwFirst, kState, kRestoreLast, kRestorePrev, kRestoreAhead, kAppBoth:
 		return s.db.SaveRaftState(a.updates, 1)
+	case kSnapCompact:
+		if err := s.db.SaveSnapshots(a.updates); err != nil {
+			return fmt.Errorf("SaveSnapshots: %w", err)
+		}
+		s.quiesce()
+		return s.db.RemoveEntriesTo(p.shard, p.replica, a.index)
 	case kSnapCommit, kSnapLast:
 		return s.db.SaveSnapshots(a.updates)
 	case kRemoveTo, kRemoveToPrev:
@@ -1220,6 +1244,17 @@ type c09explorer struct {
 }
 
 func (x *c09explorer) node(ops []uint8, count bool) bool {
+	if c09countOnly {
+		// developer knob C09_COUNT=1: size of the sequence space, nothing is executed
+		if count {
+			x.res.Evaluations++
+			for len(x.perDepth) <= len(ops) {
+				x.perDepth = append(x.perDepth, 0)
+			}
+			x.perDepth[len(ops)]++
+		}
+		return true
+	}
 	r := c09run(x.p.kind, x.p.big, x.p.rollover, ops)
 	if count {
 		x.res.Evaluations++
@@ -1319,6 +1354,19 @@ func (x *c09explorer) dfs(m *c09model, path []uint8, mine bool) {
 	}
 }
 
+var c09countOnly = os.Getenv("C09_COUNT") != ""
+
+// developer knob C09_OFF=kind,kind (numbers): operation kinds left out
+var c09off = func() map[c09kind]bool {
+	m := map[c09kind]bool{}
+	for _, f := range strings.Split(os.Getenv("C09_OFF"), ",") {
+		if n, err := strconv.Atoi(f); err == nil {
+			m[c09kind(n)] = true
+		}
+	}
+	return m
+}()
+
 // c09depth lets a developer override the bounds (C09_DEPTH=free,max,deepB)
 // when probing.
 func c09depth(b c09bounds) c09bounds {
@@ -1357,7 +1405,7 @@ func c09explore(t *testing.T, p c09params) {
 		b = p.thorough
 	}
 	b = c09depth(b)
-	res.Rule = fmt.Sprintf("every sequence of ILogDB operations of length <= %d, and every sequence of length <= %d with at most %d operation(s) on the second pair, over the alphabet {append 1|3 at the end, overwrite a suffix from last|last-2|first-overwritable with a higher term and a shorter tail, hard state, SaveSnapshots at commit|last, Update.Snapshot (restore) at last|last+2 [thorough: last-1], RemoveEntriesTo(snapshot) [thorough: snapshot-1], RemoveNodeData, ImportSnapshot (as tools.ImportSnapshot does: open, import, close), close+reopen [thorough: + replay reads]} x two (shard,replica) pairs sharing the store [quick: second pair restricted to append 1|3, hard state, SaveSnapshots(last), RemoveNodeData, ImportSnapshot] + one SaveRaftState carrying both pairs; each sequence runs from scratch on a fresh real store on a strict MemFS and both pairs are read back and compared with the model after its last operation (every prefix is itself an enumerated sequence, so every operation of every sequence is followed by the oracle); evaluation = one sequence executed and judged; non-trivial = at least one pair holds saved data at the end; sequences are distinct by construction; a violating sequence is reported and not extended",
+	res.Rule = fmt.Sprintf("every sequence of ILogDB operations of length <= %d, and every sequence of length <= %d with at most %d operation(s) on the second pair, over the alphabet {append 1|3 at the end, overwrite a suffix from last|last-2|first-overwritable with a higher term and a shorter tail, hard state, SaveSnapshots at commit|last, Update.Snapshot (restore) at last|last+2 [thorough: last-1], RemoveEntriesTo(snapshot) [thorough: snapshot-1], SaveSnapshots(commit) immediately followed by RemoveEntriesTo(snapshot) as one operation when commit < last (snapshot + log compaction below the end of the log), RemoveNodeData, ImportSnapshot (as tools.ImportSnapshot does: open, import, close), close+reopen [thorough: + replay reads]} x two (shard,replica) pairs sharing the store [quick: second pair restricted to append 1|3, hard state, SaveSnapshots(last), RemoveNodeData, ImportSnapshot] + one SaveRaftState carrying both pairs; each sequence runs from scratch on a fresh real store on a strict MemFS and both pairs are read back and compared with the model after its last operation (every prefix is itself an enumerated sequence, so every operation of every sequence is followed by the oracle); evaluation = one sequence executed and judged; non-trivial = at least one pair holds saved data at the end; sequences are distinct by construction; a violating sequence is reported and not extended",
 		b.free, b.max, b.deepB)
 	res.Assumptions = []string{
 		"sequences obey the raft-side contract of the store: appends are contiguous, overwrites start above the snapshot and commit index, RemoveEntriesTo <= newest snapshot index, the first update of a replica carries its hard state and later updates carry it only when it changed, ImportSnapshot runs on a closed NodeHost (tools.ImportSnapshot), i.e. bracketed by close/open",
@@ -1392,6 +1440,12 @@ func c09explore(t *testing.T, p c09params) {
 				fmt.Sprintf("%s after %v: %s", rp.Store, c09describeAll(seq), r.finding.desc), rp)
 		}
 		return
+	}
+	if c09countOnly {
+		res.Cap("C09_COUNT: sequences counted, nothing executed")
+	}
+	if len(c09off) > 0 {
+		res.Cap("C09_OFF: operation kinds left out")
 	}
 	x := &c09explorer{run: run, res: res, p: p, b: b, thorough: run.Thorough(),
 		found: map[string]*c09viol{}, outcomes: map[string]int64{}}
